@@ -6,6 +6,7 @@ base = json.load(open("/root/.vp/BASELINE.json"))
 ids = [json.loads(l)["id"] for l in open(os.path.join(V, "properties.jsonl"))]
 frags = {}
 for p in sorted(glob.glob(os.path.join(V, "props", "C*.json"))):
+    if p.endswith(".findings.json"): continue
     f = json.load(open(p)); frags[f["property_id"]] = f
 na_reasons = {}
 nap = os.path.join(V, "props", "not_applicable.json")
